@@ -34,6 +34,7 @@ import (
 	"reflect"
 	"regexp"
 	"sort"
+	"strconv"
 	"strings"
 
 	"golang.org/x/tools/go/packages"
@@ -872,7 +873,7 @@ func (in *inliner) expand(pk *packages.Package, file *ast.File, st *site, ownerD
 		}
 	}
 	// import name mapping callee file -> caller file
-	q := &qualifier{pk: pk, file: file}
+	q := &qualifier{pk: pk, file: file, in: in, from: c.pkg}
 	in.n++
 	prefix := fmt.Sprintf("inl%d_", in.n)
 	label := prefix + "done"
@@ -1123,6 +1124,18 @@ func (in *inliner) expand(pk *packages.Package, file *ast.File, st *site, ownerD
 			if name, ok := in.namedConst(pk, argI); ok && types.Identical(pk.TypesInfo.TypeOf(argI), pt) &&
 				pv.Name() != "" && pv.Name() != "_" && in.onlyRead(c, pv) && !in.mentions(c, strings.SplitN(name, ".", 2)[0]) {
 				litParam[pv] = name
+				continue
+			}
+		}
+		if id, isId := argI.(*ast.Ident); isId {
+			// a package-level variable of this package that is set where it
+			// is declared and never again (`var byteOrder =
+			// binary.BigEndian`), handed to a parameter the callee only
+			// reads: the body names the variable
+			pv := gsig.Params().At(i)
+			if gv, _ := pk.TypesInfo.Uses[id].(*types.Var); gv != nil && gv.Parent() == pk.Types.Scope() && (types.Identical(gv.Type(), pt) || (types.IsInterface(pt) && !types.IsInterface(gv.Type()) && types.AssignableTo(gv.Type(), pt))) &&
+				pv.Name() != "" && pv.Name() != "_" && in.onlyRead(c, pv) && !in.mentions(c, id.Name) && in.neverAssigned(pk, gv) {
+				litParam[pv] = id.Name
 				continue
 			}
 		}
@@ -1513,6 +1526,56 @@ func (in *inliner) namedConst(pk *packages.Package, e ast.Expr) (string, bool) {
 	return "", false
 }
 
+// neverAssigned: no file of the package assigns to the package-level variable
+// or takes its address (its declaration aside).
+func (in *inliner) neverAssigned(pk *packages.Package, gv *types.Var) bool {
+	is := func(e ast.Expr) bool {
+		for {
+			p, ok := e.(*ast.ParenExpr)
+			if !ok {
+				break
+			}
+			e = p.X
+		}
+		id, ok := e.(*ast.Ident)
+		if !ok {
+			return false
+		}
+		o := id
+		for in.origOf[o] != nil {
+			o = in.origOf[o]
+		}
+		return pk.TypesInfo.Uses[o] == types.Object(gv)
+	}
+	bad := false
+	for _, f := range pk.Syntax {
+		ast.Inspect(f, func(n ast.Node) bool {
+			switch x := n.(type) {
+			case *ast.AssignStmt:
+				for _, l := range x.Lhs {
+					if is(l) {
+						bad = true
+					}
+				}
+			case *ast.IncDecStmt:
+				if is(x.X) {
+					bad = true
+				}
+			case *ast.UnaryExpr:
+				if x.Op == token.AND && is(x.X) {
+					bad = true
+				}
+			case *ast.RangeStmt:
+				if (x.Key != nil && is(x.Key)) || (x.Value != nil && is(x.Value)) {
+					bad = true
+				}
+			}
+			return !bad
+		})
+	}
+	return !bad
+}
+
 // onlyRead: the callee never assigns to its parameter pv, never takes its
 // address and never captures it in a function literal.
 func (in *inliner) onlyRead(c *callee, pv *types.Var) bool {
@@ -1701,6 +1764,54 @@ type qualifier struct {
 	file   *ast.File
 	failed bool
 	used   map[string]string // name -> path
+	// when set: a package the calling file does not import yet, but the
+	// helper's package does, is imported under a name of its own
+	in   *inliner
+	from *packages.Package
+}
+
+// addImport imports path into the calling file as inlP_<name> and makes the
+// import used (so that a call that is left alone after all breaks nothing).
+func (q *qualifier) addImport(path string) string {
+	if q.in == nil || q.from == nil || q.from == q.pk {
+		return ""
+	}
+	ip := q.from.Imports[path]
+	if ip == nil || ip.Types == nil || strings.Contains(path, "/internal/") && !strings.HasPrefix(path, ModulePath) {
+		return ""
+	}
+	// something exported to mention
+	var use ast.Decl
+	alias := "inlP_" + ip.Types.Name()
+	for _, nm := range ip.Types.Scope().Names() {
+		obj := ip.Types.Scope().Lookup(nm)
+		if !obj.Exported() {
+			continue
+		}
+		sel := &ast.SelectorExpr{X: ast.NewIdent(alias), Sel: ast.NewIdent(nm)}
+		switch o := obj.(type) {
+		case *types.Const:
+			use = &ast.GenDecl{Tok: token.CONST, Specs: []ast.Spec{&ast.ValueSpec{Names: []*ast.Ident{ast.NewIdent("_")}, Values: []ast.Expr{sel}}}}
+		case *types.Var:
+			use = &ast.GenDecl{Tok: token.VAR, Specs: []ast.Spec{&ast.ValueSpec{Names: []*ast.Ident{ast.NewIdent("_")}, Values: []ast.Expr{sel}}}}
+		case *types.Func:
+			if sig, _ := o.Type().(*types.Signature); sig != nil && sig.TypeParams().Len() == 0 {
+				use = &ast.GenDecl{Tok: token.VAR, Specs: []ast.Spec{&ast.ValueSpec{Names: []*ast.Ident{ast.NewIdent("_")}, Values: []ast.Expr{sel}}}}
+			}
+		}
+		if use != nil {
+			break
+		}
+	}
+	if use == nil {
+		return ""
+	}
+	spec := &ast.ImportSpec{Name: ast.NewIdent(alias), Path: &ast.BasicLit{Kind: token.STRING, Value: strconv.Quote(path)}}
+	q.file.Imports = append(q.file.Imports, spec)
+	q.file.Decls = append([]ast.Decl{&ast.GenDecl{Tok: token.IMPORT, Specs: []ast.Spec{spec}}}, q.file.Decls...)
+	q.file.Decls = append(q.file.Decls, use)
+	q.in.dirty[q.file] = true
+	return alias
 }
 
 func (q *qualifier) nameOf(path string) string {
@@ -1723,7 +1834,7 @@ func (q *qualifier) nameOf(path string) string {
 		}
 		return path
 	}
-	return ""
+	return q.addImport(path)
 }
 
 func (q *qualifier) qual(p *types.Package) string {
